@@ -201,6 +201,10 @@ def _shadow_validate(mod, cparams, sctx, S, res):
             warnings.simplefilter('ignore')
             mod.case(cctx, **cparams)
     except Exception as e:
+        if os.environ.get('VERIF_DEBUG_SHADOW'):
+            import traceback
+            traceback.print_exc()
+            print('shadow values', values, file=sys.stderr)
         res['shadow_skipped'] += 1
         return
     if cctx.failures:
@@ -221,6 +225,8 @@ def _shadow_validate(mod, cparams, sctx, S, res):
         res['shadow_skipped'] += 1
         return
     if len(cctx.records) != len(sctx.records) or any(a[0] != b[0] for a, b in zip(cctx.records, sctx.records)):
+        if os.environ.get('VERIF_DEBUG_SHADOW'):
+            print('shadow: records differ', [a[0] for a in cctx.records], [a[0] for a in sctx.records], file=sys.stderr)
         res['shadow_skipped'] += 1
         return
     env = {}
@@ -233,6 +239,10 @@ def _shadow_validate(mod, cparams, sctx, S, res):
         else:
             env[names[0][0]] = v
     ufuns = {k: FuncTable.from_json(v) for k, v in funcs.items()}
+    for k in sctx.uf_decl:
+        if k not in ufuns:          # not constrained on this path: same stand-in as the concrete run uses
+            from .ctx import default_uf
+            ufuns[k] = default_uf
     bad = None
     compared = 0
     for (label, terms_), (_, vals) in zip(sctx.records, cctx.records):
@@ -240,10 +250,15 @@ def _shadow_validate(mod, cparams, sctx, S, res):
             continue
         fv = {n for n, _ in T.free_vars(terms_)}
         if any(n not in env for n in fv):
+            if os.environ.get('VERIF_DEBUG_SHADOW'):
+                print('shadow: free vars not in env', [n for n in fv if n not in env], sorted(env), file=sys.stderr)
             continue        # depends on garbage / poison / auxiliary symbols
         try:
             ev = T.evaluate(terms_, env, ufuns)
         except Exception:
+            if os.environ.get('VERIF_DEBUG_SHADOW'):
+                import traceback
+                traceback.print_exc()
             continue
         ev = np.array([float(x) for x in ev])
         vals = np.asarray(vals, dtype=float)
